@@ -3,3 +3,21 @@ package gf2p16
 
 // T is an element of GF(2^16).
 type T uint16
+
+// hintUnchecked indexes from the end without knowing the slice is non-empty (IDXLEN positive).
+func hintUnchecked(in, out []byte) {
+	_ = out[len(in)-1]
+	for i := range in {
+		out[i] = in[i]
+	}
+}
+
+// hintChecked does the same under a length test (IDXLEN negative).
+func hintChecked(in, out []byte) {
+	if len(in) > 0 {
+		_ = out[len(in)-1]
+	}
+	for i := range in {
+		out[i] = in[i]
+	}
+}
